@@ -192,7 +192,10 @@ fn main() {
             if let Some(p) = &args.replay {
                 let v: Value = serde_json::from_str(&std::fs::read_to_string(p).expect("replay file")).unwrap();
                 if let Some(seed) = v["case_seed"].as_u64() {
-                    let scn = bp::Scn::from_seed(seed);
+                    let mut scn = bp::Scn::from_seed(seed);
+                    if prop == "C02" {
+                        scn.prior_fault = false;
+                    }
                     for _ in 0..5 {
                         run_one(&scn, &mut rep, &mut seen);
                     }
@@ -237,6 +240,9 @@ fn main() {
                     break;
                 }
                 let mut scn = bp::Scn::from_seed(*seed);
+                if prop == "C02" {
+                    scn.prior_fault = false;
+                }
                 // make sure every (workers, limit) pair is visited: the first 12 scenarios of the run form the grid
                 if i < 12 {
                     scn.workers = 1 + i % 3;
@@ -248,8 +254,8 @@ fn main() {
                 }
             }
             rep.rule = "back-pressure scenarios on a real server: workers 1..3 x limit 1..4 (full grid first, then seeded shapes) x {TCP, UDS, TCP+UDS} x {Actix System, plain Tokio} x optional failpoints (send<->inc, dec<->wake, recv<->call, accept<->dispatch, handle_waker) x optional concurrent-release stress; \
-                        phases: first round (sequential clients), saturate all workers, queue extra clients, release one held connection at a time, partial-set round; after every step the barrier (guard-drop completion + no-op command ping + idle snapshot + pick-up) is reached and the quiescent-point rules are evaluated on the ordered hook log: \
-                        C02 shadow in-flight <= limit at every Dispatch and service-call concurrency per worker thread <= limit, nothing dispatched while all are saturated; C03 no connection waits in a backlog while a live worker has a free slot; C04 windows of W dispatches hit W distinct workers while unsaturated, a released slot is refilled on the releasing worker, the available set is covered. \
+                        optionally after a prelude in which one worker died and was replaced (handle list no longer in index order; not for C02); phases: first round (sequential clients), saturate all workers, queue extra clients, release one held connection at a time, partial-set round; after every step the barrier (guard-drop completion + no-op command ping + idle snapshot + pick-up) is reached and the quiescent-point rules are evaluated on the ordered hook log: \
+                        C02 shadow in-flight <= limit at every Dispatch and service-call concurrency per worker thread <= limit, nothing dispatched while all are saturated; C03 no connection waits in a backlog while a live worker has a free slot; C04 windows of W dispatches hit W distinct workers while unsaturated, a released slot is refilled on the releasing worker, the available set is covered, and at every quiescent point each live worker's availability bit agrees with its counter in the same snapshot. \
                         Plus exhaustive probes of the real Counter / guard / Availability types. Distinct = distinct scenario shape; non-trivial = scenario ran to the end with its barriers reached."
                 .into();
             rep.add("obs_quiescent_points", seen.quiescent_points);
@@ -267,6 +273,8 @@ fn main() {
             rep.add("obs_stress_phases", seen.stress_phases);
             rep.add("obs_pause_resume_while_saturated", seen.pause_resume_while_saturated);
             rep.add("obs_releases_while_paused", seen.releases_while_paused);
+            rep.add("obs_prior_fault_preludes", seen.prior_fault_preludes);
+            rep.add("obs_availability_bit_checks_at_quiescence", seen.avail_bit_checks);
         }
         "C01" => scenario_loop(
             &args,
@@ -336,6 +344,9 @@ fn main() {
                         rep.add("obs_uds_connects", seen.uds_connects);
                         rep.add("obs_tcp_connects", seen.tcp_connects);
                         rep.add("obs_errors_injected_while_paused", seen.errors_while_paused);
+                        rep.add("obs_busy_backoff_waits", seen.busy_waits);
+                        rep.add("obs_saturating_scenarios", seen.saturating_scenarios);
+                        rep.add("obs_releases_while_paused", seen.releases_while_paused);
                         rep.rule = "command / fault sequences of length 1..5 over {pause, resume, connect(l), inject accept error(l, EMFILE|ENFILE|ENOMEM|ECONNABORTED|ECONNRESET|ECONNREFUSED) + connect, wait past the back-off} on {TCP, UDS, TCP+UDS} listeners x {Actix, Tokio} with failpoints at the pause/resume acknowledgement and in the accept loop, followed by an epilogue (resume, wait); \
                                     after every step a no-op command ping brings the accept thread to an idle snapshot and the rules are evaluated on the ordered hook log: pause flag equals the command history (idempotence), no Dispatch between a processed pause and the next resume, a listener that is neither paused nor backing off is registered, a paused one is not, \
                                     per-connection errors cause no deregistration, resource errors do, a back-off is over after 650 ms, every connect() to a running server's listener succeeds (UDS path still present), and every client of an armed listener gets served. Distinct = distinct (listeners, runtime, op sequence); non-trivial = scenario completed.".into();
@@ -379,6 +390,7 @@ fn main() {
                         rep.add("obs_stops_completed", seen.stops_completed);
                         rep.add("obs_undetected_fault_scenarios", seen.undetected_fault_scenarios);
                         rep.add("obs_hammer_scenarios", seen.hammer_scenarios);
+                        rep.add("obs_client_connections_not_in_accept_queue_at_quiescence", seen.pending_not_in_accept_queue);
                         rep.rule = "fault sequences on a real server, workers 1..3 x limit 1..3 x {Actix, Tokio}: victims (one, or two at once) idle / partially loaded / saturated; fault = panic in call, panic in poll_ready woken through its waker, readiness error whose re-creation fails; \
                                     victim's connections closed before the fault / after it / after detection / never; replacement factory delay 0/300/500 ms; a failpoint delays the victim's availability notification by 0/150/400 ms (late notification relative to detection and replacement); \
                                     a fixed regression corpus of 24 double-fault histories (saturated second victim, slow replacement, delayed notification) is always run first (quick samples it), thorough walks it completely. \
